@@ -3,27 +3,28 @@
 # Confirms independently, in the scratch worktree: (1) with the patch the pinned suite passes, (2) the demo fails with the patch, (3) the demo passes without it.
 wt=$1; m=$2
 cd "$wt" || exit 2
+T=$(mktemp -d /tmp/confirm.XXXXXX); trap 'rm -rf "$T"' EXIT
 git checkout -q -- . ; rm -f o2o-tests/tests/zz_demo.rs
 style=integ; grep -q "quote!\|parse_quote" "$m/demo.rs" && style=unit
 run_demo() {
   if [ $style = integ ]; then
     cp "$m/demo.rs" o2o-tests/tests/zz_demo.rs
-    cargo nextest run --workspace --offline -E 'binary(zz_demo)' --no-fail-fast >/tmp/demo.out 2>&1; rc=$?
+    cargo nextest run --workspace --offline -E 'binary(zz_demo)' --no-fail-fast >$T/demo.out 2>&1; rc=$?
     rm -f o2o-tests/tests/zz_demo.rs
   else
-    cp o2o-impl/src/tests.rs /tmp/tests.rs.bak
+    cp o2o-impl/src/tests.rs $T/tests.rs.bak
     cat "$m/demo.rs" >> o2o-impl/src/tests.rs
     names=$(grep -oE "fn [a-z0-9_]+\(\)" "$m/demo.rs" | sed 's/fn //; s/()//' | head -5 | tr '\n' ' ')
-    cargo nextest run -p o2o-impl --features syn --offline --no-fail-fast $names >/tmp/demo.out 2>&1; rc=$?
-    cp /tmp/tests.rs.bak o2o-impl/src/tests.rs
+    cargo nextest run -p o2o-impl --features syn --offline --no-fail-fast $names >$T/demo.out 2>&1; rc=$?
+    cp $T/tests.rs.bak o2o-impl/src/tests.rs
   fi
   return $rc
 }
 run_demo; d0=$?
 git apply "$m/patch.diff" || { echo "patch does not apply"; exit 2; }
-cargo nextest run --workspace --no-fail-fast --test-threads 8 --offline > /tmp/suite.out 2>&1; s1=$?
-suite=$(grep -E "tests run" /tmp/suite.out | tail -1)
+cargo nextest run --workspace --no-fail-fast --test-threads 8 --offline > $T/suite.out 2>&1; s1=$?
+suite=$(grep -E "tests run" $T/suite.out | tail -1)
 run_demo; d1=$?
 git checkout -q -- .
 echo "style=$style demo_without_patch_rc=$d0 suite_with_patch_rc=$s1 [$suite] demo_with_patch_rc=$d1"
-if [ $d0 -eq 0 ] && [ $s1 -eq 0 ] && [ $d1 -ne 0 ]; then echo CONFIRMED; else echo NOT_CONFIRMED; tail -5 /tmp/demo.out; fi
+if [ $d0 -eq 0 ] && [ $s1 -eq 0 ] && [ $d1 -ne 0 ]; then echo CONFIRMED; else echo NOT_CONFIRMED; tail -5 $T/demo.out; fi
